@@ -42,7 +42,7 @@ class Source:
                 self.normalised = normalize.normalise(rel, self.tree, localnames.table().get(rel, {}).get("__inventory__"))
                 self.renamed = localnames.recover(rel, self.tree, self.low)
                 if localnames.table().get(rel):
-                    n_t = normalize.inline_new_temps(self.tree, localnames.table().get(rel, {}))
+                    n_t = normalize.inline_new_temps(self.tree, localnames.table().get(rel, {}), self.low.ctype)
                     if n_t:
                         self.normalised["temporaries"] = n_t
                         normalize.finish(self.tree)
@@ -292,6 +292,27 @@ class Mutant:
         return text.replace(self.old, self.new)
 
 
+class MultiMutant(Mutant):
+    """several text edits of one source (each `old` replaced once, in order); any new finding counts (rule None)"""
+
+    def __init__(self, name, rel, edits, rule=None, qualname=None, kind="break"):
+        Mutant.__init__(self, name, rel, None, None, rule, qualname, 1, kind)
+        self.edits = edits
+
+    def build(self, ctx):
+        text = ctx.src(self.rel).text
+        for old, new in self.edits:
+            if text.count(old) < 1:
+                return None
+            text = text.replace(old, new, 1)
+        return text
+
+
+def all_mutants(mod, prop):
+    from .redteam_cases import CASES
+    return list(getattr(mod, "MUTANTS", [])) + [MultiMutant("redteam-" + k, rel, edits) for k, (p_, rel, edits) in CASES.items() if p_ == prop]
+
+
 def run_property(prop, tier, overrides=None, repo=None):
     mod = __import__(f"sa.props.{prop}", fromlist=["run"])
     ctx = Ctx(prop, tier, overrides, repo)
@@ -303,7 +324,7 @@ def _mutant_job(args):
     prop, tier, m_idx, repo = args
     try:
         mod = __import__(f"sa.props.{prop}", fromlist=["run"])
-        m = mod.MUTANTS[m_idx]
+        m = all_mutants(mod, prop)[m_idx]
         base = Ctx(prop, tier, None, repo)
         text = m.build(base)
         if text is None:
@@ -321,7 +342,7 @@ def _mutant_job(args):
         hits = [
             f
             for f in ctx.findings
-            if f.rule == m.rule and (m.qualname is None or f.qualname == m.qualname)
+            if (m.rule is None or f.rule == m.rule) and (m.qualname is None or f.qualname == m.qualname)
         ]
         return (m_idx, "hits", [f.key() for f in hits])
     except Exception:
@@ -331,7 +352,7 @@ def _mutant_job(args):
 def self_validate(prop, mod, base_ctx, jobs, seed):
     """every seeded fault must produce a *new* finding of its rule; every
     repair twin must remove the known finding it names"""
-    muts = getattr(mod, "MUTANTS", [])
+    muts = all_mutants(mod, prop)
     base_keys = {f.key() for f in base_ctx.findings}
     order = list(range(len(muts)))
     import random
